@@ -299,7 +299,7 @@ func VF_C16_crash_quick()    { c16Crash(20, 1, 1, 2) }
 
 // a completed Save that only changes the vote (same term, no entries) must be durable as well
 func VF_C16_crash_voteonly() { c16BaseBatch = true; c16CrashAt(4, 6, 1, 1, 0) }
-func VF_C16_crash_thorough() { c16Crash(40, 2, 2, 3) }
+func VF_C16_crash_thorough() { c16Crash(40, 2, 1, 2) }
 
 // ---------------------------------------------------------------------------
 // VF_C16_torn_fn: isTornEntry == "some sector-aligned chunk of the record is all zero", for records
